@@ -4,6 +4,7 @@ import Driver.C02Mon
 import Driver.C12Mon
 import Driver.FlowMon
 import Driver.C14Mon
+import Driver.C05Mon
 open Kv
 
 structure MState where
@@ -20,6 +21,7 @@ def dispatchMon (st : MState) (prop : String) (l : Line) : MState × String :=
   | "C04" => let (s, r) := Drv.Flow.stepMon "C04" st.c04 l; ({ st with c04 := s }, r)
   | "C07" => let (s, r) := Drv.Flow.stepMon "C07" st.c07 l; ({ st with c07 := s }, r)
   | "C14" => (st, Drv.C14.stepMon l)
+  | "C05" => (st, Drv.C05.step l)
   | _ => (st, "bad-op")
 
 def main : IO Unit := driverMain dispatchMon {}
